@@ -1153,7 +1153,28 @@ fn gen_details(rng: &mut Rng) -> Vec<u8> {
 }
 
 fn gen_status(rng: &mut Rng, h2: bool) -> StatusSpec {
-    StatusSpec { code: rng.range(1, 16) as i32, msg: gen_text(rng), details: gen_details(rng), md: gen_md(rng, h2) }
+    let mut st = StatusSpec { code: rng.range(1, 16) as i32, msg: gen_text(rng), details: gen_details(rng), md: gen_md(rng, h2) };
+    // large fields (in-process only: over real HTTP/2 they would exceed the peer's header-list limit):
+    // a status message / details / one metadata value well beyond 32 KiB must arrive whole
+    if !h2 && rng.chance(1, 40) {
+        match rng.below(3) {
+            0 => {
+                let n = *rng.pick(&[8192usize, 40000, 70000]);
+                let mut m = vec![b'm'; n];
+                m.extend_from_slice("\u{e9}%\n".as_bytes());
+                st.msg = m;
+            }
+            1 => {
+                let n = *rng.pick(&[8191usize, 40000, 70001]);
+                st.details = rng.bytes(n);
+            }
+            _ => {
+                let n = *rng.pick(&[8192usize, 16384, 40000]);
+                st.md.push((s("x-big"), (0..n).map(|i| b'a' + (i % 26) as u8).collect()));
+            }
+        }
+    }
+    st
 }
 
 /// sizes around HTTP/2's default frame size and flow-control window and tonic's yield threshold
